@@ -50,7 +50,10 @@ Inductive c10case :=
 (* TimingMap.beats at arbitrary times (on the grid or not) of a constant-metronome script *)
 | CBeatsT (tol : Q) (init : Q) (l : list bcs) (os : list Q) (out : option (list Q))
 | CSnapper (x : Q) (out : Q)
-| CRederive (init : Q) (l : list bcs) (out : option (list bcs)).
+| CRederive (init : Q) (l : list bcs) (out : option (list bcs))
+(* the timing map built from a tempo list (any order, any positions, equal neighbouring tempos) holds exactly the
+   tempo changes given: BpmList.to_timing_map / from_bpm_changes_offset drop, merge or invent nothing *)
+| CKeeps (given got : list bco).
 
 Record verdict := { corr_ok : bool; spec_ok : bool; wf_ok : bool }.
 
@@ -85,8 +88,24 @@ Definition beats_time_ok (tol : Q) (init : Q) (l : list bcs) (ob : list (Q * Q))
                     && (negb (time_on_gridb tbl init l (fst p)) || q_close tol (snd p) ba)) ob
   && forallb (fun p1 => forallb (fun p2 => negb (Qle_bool (fst p1) (fst p2)) || Qle_bool (snd p1) (snd p2 + tol)) ob) ob.
 
+Definition bco_lex_lt (a b : bco) : bool :=
+  Qlt_bool (bo_off a) (bo_off b)
+  || (Qeq_bool (bo_off a) (bo_off b) && (Qlt_bool (bo_bpm a) (bo_bpm b)
+      || (Qeq_bool (bo_bpm a) (bo_bpm b) && Qlt_bool (bo_met a) (bo_met b)))).
+Definition bco_same (a b : bco) : bool :=
+  Qeq_bool (bo_off a) (bo_off b) && Qeq_bool (bo_bpm a) (bo_bpm b) && Qeq_bool (bo_met a) (bo_met b).
+Fixpoint bco_lists_same (a b : list bco) : bool :=
+  match a, b with
+  | [], [] => true
+  | x :: a', y :: b' => bco_same x y && bco_lists_same a' b'
+  | _, _ => false
+  end.
+Definition keeps_ok (given got : list bco) : bool :=
+  bco_lists_same (sort_by bco_lex_lt given) (sort_by bco_lex_lt got).
+
 Definition check (c : c10case) : verdict :=
   match c with
+  | CKeeps given got => {| corr_ok := true; spec_ok := keeps_ok given got; wf_ok := true |}
   | COffsets tol init l qs out =>
       let m := match model_tm init l with None => None | Some b => tm_offsets tbl b qs end in
       let wf := domainb tbl l qs && forallb (fun c => is_int_1_8 (bs_met c)) l in
